@@ -437,7 +437,7 @@ func verif_GetWorkConn(ctl *Control) {
 		// "a closed pool yields an error": whichever receive produced the result,
 		// it delivered a value that was sent, not the zero value of a closed pool
 		// (the caller dereferences the connection in a goroutine of its own)
-		verif.Ensures(verif.RetBool("recv", 0), "closed_pool_is_an_error_never_a_nil_connection")
+		verif.Ensures(verif.RetBool("recv:H.server.Control.workConnCh", 0), "closed_pool_is_an_error_never_a_nil_connection")
 		verif.Ensures(verif.CallCount(evSend) >= 1 && verif.CallCount(evSend) <= 2, "taken_connection_is_replaced")
 	}
 	_ = wc
